@@ -1,3 +1,4 @@
 From Coq Require Import ZArith Extraction ExtrOcamlBasic.
-From CyVerif Require Import Lib.CInt Model.M_Cmp Model.M_CmpFold.
-Extraction "../ocaml/gen/m_cmpfold.ml" ex_keep fold run_fold ref_cascade plain obs status.
+From CyVerif Require Import Lib.CInt Model.M_Cmp Model.M_CmpFold Model.M_CmpNot.
+Extraction "../ocaml/gen/m_cmpfold.ml" ex_keep fold run_fold ref_cascade plain obs status
+  handle_not run_not ref_not.
